@@ -11,12 +11,22 @@ LEVEL_NOTE = ("nalgebra's SVD is not modelled: its singular values are tied to t
               "is compared with the model fed with the implementation's own jsa_range output.")
 OPS = {"schmidt"}
 TOL = {"schmidt": ("rel", 1e-9)}
+# the model of `schmidt` IS the closed form of the statement ((sum sigma^2)^2 / sum sigma^4 of the magnitude matrix, in trace form:
+# theorem K_eq_sv): a disagreement is a failing input of the formula clause
+REFERENCE_OPS = {"schmidt": ("C11.formula", "schmidt/formula-vs-model")}
 DEFAULT_TOL = ("exact",)
 RULE = ("family schmidt: one random array of every length 0-150 (quick) / 0-1700 (thorough); every side 1-6 x 10 kinds (random, rank-1, equal diagonal, "
         "equal permutation pattern, near-separable, ridge, zero border rows, zero border columns, block-sparse, diagonal with holes) then seeded random sides 1-12 / 1-40; two cases in three carry a global complex factor "
         "log-uniform in 1e-30..1e+30 and every clause (bounds, extremes, correspondence) is evaluated on the scaled array; each with a variant scaled by "
         "another factor from the same sixty decades, a phased and a transposed variant; JointSpectrum::schmidt_number on random setups built with every integrator variant in turn (Simpson, Gauss-Legendre, AdaptiveSimpson, ClenshawCurtis; GaussKonrod skipped: D40) with square ranges, "
-        "rectangular ranges of square length (4x9, 2x8, 3x12, 1x4, 9x4 ...) and of non-square length (6x11, 2x3 ... => Err)")
+        "rectangular ranges of square length (4x9, 2x8, 3x12, 1x4, 9x4 ...) and of non-square length (6x11, 2x3 ... => Err)"
+        " | exactly structured arrays (no from_polar / generic complex product anywhere): all 16 2x2 patterns of +-1 as exactly real, exactly imaginary and "
+        "real-or-imaginary arrays, then every side 1-6 x 14 kinds and seeded random sides (exactly real signed, exactly imaginary, entries real or imaginary, "
+        "integer / Gaussian-integer / 0,+-1 valued, Hadamard-like and random sign patterns on equal / separable / random magnitudes, signed separable, signed equal and "
+        "unequal (permuted) diagonals, block diagonal, sparse with +-0.0 zeros at the edges and in the centre, symmetric / antisymmetric / Hermitian / triangular, "
+        "real Gaussian x sinc model spectrum, real with one complex entry, sign lattices) under an exact global factor (+-m, +-i m; m = 1, 2^k, log-uniform 1e-30..1e30); "
+        "every array and every variant is also compared with the statement's closed form evaluated without SVD (C11.formula); exact variants: real / imaginary "
+        "factor, element-wise signs, quarter turns, conjugation, magnitudes only; the array is handed over as Vec, slice, Box<[_]> and &Vec in turn")
 RESIDUAL = "nalgebra try_svd is trusted to return the singular values (checked against tr M, tr M^2 through the model on every case); rounding is measured"
 CHECKER_MODULES = ["Spdc.Real.SchmidtLemmas"]
 TRUSTED_EXTRA = ["nalgebra 0.33 try_svd returns the singular values of the magnitude matrix (tied numerically to the trace form on every case)"]
